@@ -37,6 +37,9 @@ package telemetry
 //@   assumes result0 == $mode && result1 == $asof
 //@   modifies nothing
 
+//@ contract Dir.SetMode
+//@   inline
+
 // SetModeAsOf: an invalid mode is rejected before anything is written; a valid
 // one performs exactly one file write, to the mode file.
 //@ contract Dir.SetModeAsOf
@@ -44,6 +47,7 @@ package telemetry
 //@   ensures d.modefile == "" ==> result != nil && $fsops == old($fsops)
 //@   ensures $fsops <= old($fsops)+1
 //@   at call WriteFile#1: assert arg0 == d.modefile
+//@   at call WriteFile#1: assert (mode == "on" || mode == "off" || mode == "local") && string(arg1) == mode + " " + asofTime.UTC().Format("2006-01-02")
 //@   modifies $fsops
 
 //@ contract NewDir
